@@ -1,7 +1,7 @@
 (* Props/C06.v — At-most-once execution of an entry (replay protection).
    Only statements, each closed by [exact]; proofs live in Lemmas/. *)
 From Model Require Import Examples.
-From Lemmas Require Import ChainLemmas.
+From Lemmas Require Import ChainLemmas HoldingLemmas StatusLemmas.
 Open Scope Z_scope.
 
 (* Execution writes a relation row for the entry hash and relation rows are never deleted: once
@@ -10,6 +10,36 @@ Theorem C06_executed_stays_executed : forall c cm mem b s' mem',
   step_block c cm mem b = Done (s', mem') -> forall hs, replayed (rel cm) hs -> replayed (rel s') hs.
 Proof. exact step_block_replay_monotone. Qed.
 Print Assumptions C06_executed_stays_executed.
+
+(* A conversion placed in holding is considered for execution exactly once.  A rated block [cur]
+   looks at the held heights from the most recent rated height below it up to cur-1 ([window]);
+   it does look at a height g in that range ... *)
+Theorem C06_held_height_is_visited : forall s cur g, 0 < cur -> last_rated_below s cur <= g < cur -> In g (window s cur).
+Proof. exact held_height_visited. Qed.
+(* ... and once a rated height c1 lies between g and a later block c2, that block does not look at g
+   any more: whatever happened to the batch at c1 (executed, rejected, dropped) is final. *)
+Theorem C06_held_height_is_not_revisited : forall s2 c1 c2 g m,
+  rates s2 !! c1 = Some m -> 0 <= c1 < c2 -> g < c1 -> ~ In g (window s2 c2).
+Proof. exact held_height_not_revisited. Qed.
+Print Assumptions C06_held_height_is_not_revisited.
+(* (recorded rates are never removed — C12_rates_immutable — so "c1 is rated" stays true in every
+   later state; [apply_holding] iterates over exactly this window: apply_holding_uses_window) *)
+
+(* An entry written to the chain again has no effect, whether its first copy was executed ... *)
+Theorem C06_executed_entry_again_is_inert : forall c h s order e,
+  is_replay s (e_hash e) = true -> apply_entry c h s order e = Ok s.
+Proof. exact replayed_entry_inert. Qed.
+(* ... or is still pending in holding, or was rejected (it has a history row) *)
+Theorem C06_recorded_entry_again_is_inert : forall c h s order e,
+  hist_has s (e_hash e) = true -> apply_entry c h s order e = Ok s.
+Proof. exact recorded_entry_inert. Qed.
+Print Assumptions C06_recorded_entry_again_is_inert.
+(* and on the holding path a batch whose hash counts as executed is skipped *)
+Theorem C06_executed_held_batch_is_skipped : forall c cur rates avgs s e hh txs,
+  entry_valid_at c e hh = Some txs -> ((c_V20HeightActivation c <=? cur) && has_peg_conversion txs) = false ->
+  (exists t, entry_valid_at c e cur = Some t) -> is_replay s (e_hash e) = true ->
+  apply_held c cur rates avgs s e hh = Ok (s, false).
+Proof. exact replayed_held_inert. Qed.
 
 Example C06_example :
   exists s m, replay ex_cfg genesis empty_cache ex_chain = Done (s, m) /\
